@@ -148,9 +148,14 @@ def check_case(R, res, model_answers, mismatches, label):
         if m['conc'] != py['conc']:
             mismatches.append((label, n, 'conc', m['conc'], py['conc']))
             continue
-        if exact and b != 'basic':
+        memo_free = not any(l in ('M', 'M2') for l in ls)
+        if (exact or memo_free) and b != 'basic':
+            # final tracker state (expanded); with notation only for stacks without a memoiser, whose set membership is
+            # hash based (notation-sensitive)
             if m.get('stack') != py.get('stack') or m.get('mem') != py.get('mem'):
                 mismatches.append((label, n, 'state', (m.get('stack'), m.get('mem')), (py.get('stack'), py.get('mem'))))
+            if not exact:
+                continue
             extra = py.get('bytes') if b == 'serializing' else py.get('tokens') if b == 'pretty' else py.get('uses') if b == 'counting' else ''
             if b == 'counting' and res['stats'].get('p3', 0) > 0:
                 # BasicInterpreter.prop3 builds its conclusion with the notation bot(); _collect_patterns does not
